@@ -48,6 +48,7 @@ def cases(tier, seed):
         cell_cls = planted.CELL_CLASSES[j % len(planted.CELL_CLASSES)]
         out.append({"kind": "synthetic", "s": int(rng.integers(1 << 30)), "cell": cell_cls, "pattern": patterns.CLASSES[(j // 2) % len(patterns.CLASSES)],
                     "atol": [0.05, 0.2, 0.01, 0.5][(j // 3) % 4], "dims": [[2, 1, 1], [1, 2, 1], [1, 1, 2], [2, 2, 1], [1, 3, 2], [2, 1, 3]][j % 6]})
+    out.append({"kind": "pinned_hint_case", "s": 0})
     reps = 1 if tier == "quick" else 6
     for rep in range(reps):
         for k, (sp, pp, atol) in enumerate(real_pairs()):
@@ -88,16 +89,24 @@ def run_search(structure, pattern, atol, hints=(None, None, None), seed=0, sched
             clear = True
         else:
             _, _, _, mx, _ = G.kabsch(ppos, x)
-            clear = mx <= CLEAR * atol
+            # clear = well inside the tolerance for the optimal fit AND for the documented anchored fit with the
+            # auto-chosen axis/orientation atoms (what the code does when no hints are given)
+            clear = mx <= CLEAR * atol and G.anchored_residual(ppos, x, (None, None, None)) <= 0.5 * atol
         if key in out:
             dups += 1
+        FOUND_AS[key] = (np.array(ppos, float), np.array(x, float))
         out[key] = clear or out.get(key, False)
     del events.LOG[n0:]
     return out, len(ret["matches"]), dups, None
 
 
-def compare(ctx, st, base, other, what, w, rename=None):
-    """groups clear in either run must be present in both (after renaming `other` back)"""
+FOUND_AS = {}      # atom group -> (pattern coordinates, matched positions in pattern order) of the run that reported it last
+HINT_KEY = "ill-conditioned-hints-amplify-noise-beyond-tolerance"
+
+
+def compare(ctx, st, base, other, what, w, rename=None, hints=None, atol=None, found_as=None):
+    """groups clear in either run must be present in both (after renaming `other` back).
+    hints: the hint triple of the transformed run (the base run has none)."""
     if rename is not None:
         other = {tuple(sorted(rename[i] for i in k)): v for k, v in other.items()}
     bad = False
@@ -106,6 +115,19 @@ def compare(ctx, st, base, other, what, w, rename=None):
         if inb and ino:
             continue
         clear = base.get(k, False) or other.get(k, False)
+        if clear and hints is not None and found_as is not None and k in found_as:
+            # the documented alignment pins the first axis atom, aligns the axis, then the orientation atom's azimuth; with
+            # a short axis or a small lever it amplifies the copy's noise. What that alignment leaves for THESE hints:
+            ppos, x = found_as[k]
+            anch = G.anchored_residual(ppos, x, hints if not inb else hints) if inb else G.anchored_residual(ppos, x, (None, None, None))
+            if anch > 0.9 * atol:
+                ctx.fail("%s: atom group %s (optimal-fit residual well inside the tolerance) is %s with these hints: the anchored alignment they define leaves %.3g = %.2f*atol" %
+                         (what, k, "lost" if inb else "only found", anch, anch / atol), witness=dict(w, transform=what, anchored_residual=anch), key=HINT_KEY)
+                st.count("known_finding_hint_amplification_observed")
+                continue
+            if anch > 0.5 * atol:
+                st.count("gray_groups_ignored")
+                continue
         if clear:
             ctx.fail("%s: atom group %s is %s in the base search but %s after the transformation" % (what, k, "found" if inb else "absent", "found" if ino else "absent"),
                      witness=dict(w, transform=what, base=sorted(base)[:8], transformed=sorted(other)[:8]))
@@ -119,6 +141,7 @@ def compare(ctx, st, base, other, what, w, rename=None):
 
 def metamorphic(ctx, st, S, P, atol, rng, w, dims, seed, n_hint=4, real=False):
     from mofun import Atoms
+    FOUND_AS.clear()
     base, nrep, dups, exc = run_search(S, P, atol, seed=seed)
     if exc is not None:
         ctx.fail("base search raised %s: %s" % (type(exc).__name__, str(exc)[:200]), witness=w)
@@ -167,7 +190,7 @@ def metamorphic(ctx, st, S, P, atol, rng, w, dims, seed, n_hint=4, real=False):
         if exc is not None:
             ctx.fail("search with the valid hints %s raised %s: %s" % (list(hints), type(exc).__name__, str(exc)[:160]), witness=dict(w, hints=list(hints)))
         else:
-            compare(ctx, st, base, r, "hints %s" % (list(hints),), dict(w, hints=list(hints)))
+            compare(ctx, st, base, r, "hints %s" % (list(hints),), dict(w, hints=list(hints)), hints=hints, atol=atol, found_as=dict(FOUND_AS))
     # 5. RNG state
     for sched in ("first", "last", "rr", "real"):
         r, _, _, exc = run_search(S, P, atol, seed=seed + 7919, schedule=sched)
@@ -236,6 +259,23 @@ def run_case(case, ctx):
             ctx.nontrivial(["synthetic", case["s"]])
             if len(S) <= 14:
                 ctx.sample({"kind": "synthetic", "case": {k: case[k] for k in ("cell", "pattern", "atol", "dims")}, "n_atoms": len(S), "clear_base_matches": nclear})
+        return
+    if case["kind"] == "pinned_hint_case":
+        import json
+        import os
+        from mofun import Atoms
+        d = json.load(open(os.path.join(os.path.dirname(os.path.abspath(__file__)), "data", "c03_hint_case.json")))
+        S = Atoms(elements=d["elements"], positions=np.array(d["positions"]), cell=np.array(d["cell"]))
+        P = Atoms(elements=d["pattern_elements"], positions=np.array(d["pattern_positions"]))
+        FOUND_AS.clear()
+        base, _, _, exc = run_search(S, P, d["atol"], seed=0)
+        r, _, _, exc2 = run_search(S, P, d["atol"], hints=tuple(d["hints"]), seed=0)
+        w = {"kind": "pinned_hint_case", "hints": d["hints"], "atol": d["atol"]}
+        if exc is not None or exc2 is not None:
+            ctx.fail("pinned hint case raised %r / %r" % (exc, exc2), witness=w)
+            return
+        compare(ctx, st, base, r, "hints %s (pinned witness)" % d["hints"], w, hints=tuple(d["hints"]), atol=d["atol"], found_as=dict(FOUND_AS))
+        ctx.nontrivial(["pinned_hint_case"])
         return
     S = load_any(case["structure"])
     P = load_any(case["pattern_file"])
